@@ -7,7 +7,17 @@ Round two: constant initialisers may be constant *expressions* over literals and
 (`(1<<bits)-1` for 0xFFFF is a harmless rewrite and yields the same generated file); `static constexpr` /
 `constexpr static` / `static const` are all accepted; numeric_limits<bigunsignedint<k>>::digits is translated as a
 formula in `bits`, `n`, `k`; the boolean/int members the property speaks about (is_signed, is_integer, is_exact,
-radix, is_bounded, is_modulo) are emitted as data."""
+radix, is_bounded, is_modulo) are emitted as data.
+
+Round four: straight-line code is translated too.
+* the operator list of `DUNE_BINOP` (binary operator = copy, compound operator, return the copy) -> `binopViaCompound`;
+* the 20 free mixed operators (`big OP uintmax_t`, `uintmax_t OP big`, and the `DUNE_BIGUNSIGNEDINT_SIGNED_BINOP` macro
+  with its instantiation list): each body is parsed into "which operator is applied to which operands after which
+  conversion" and emitted as the table `mixedBody`; one level of forwarding to another mixed overload (`return y OP x;`)
+  is resolved by substitution, so a commuted forwarding of `+`/`*` is quiet and one of `-` `/` `%` changes the table;
+* the three derived comparisons (`>` `>=` `==`) -> `gtDef`, `geDef`, `eqDef` (a small expression type);
+* the remaining numeric_limits members (`is_specialized`, the exponents, has_infinity ... traps) as data.
+The model evaluates the mixed operators and the derived comparisons *through* these generated definitions."""
 import ast
 import os
 import re
@@ -83,6 +93,167 @@ def _formula(e, what):
     return " ".join(out).replace("( ", "(").replace(" )", ")")
 
 
+_OPNAME = {"+": "add", "-": "sub", "*": "mul", "/": "div", "%": "mod", "&": "band", "|": "bor", "^": "bxor"}
+_BIG = r"(?:const\s+)?(?:Dune::)?bigunsignedint\s*<\s*k\s*>(?:\s+const)?\s*&?"
+
+
+def _expand_macros(src):
+    """textual expansion of the two one-parameter operator macros of the header (after comment stripping)"""
+    src = src.replace("\\\n", " ")
+    out = src
+    for name in ("DUNE_BINOP", "DUNE_BIGUNSIGNEDINT_SIGNED_BINOP"):
+        m = re.search(r"#\s*define\s+%s\s*\(\s*(\w+)\s*\)([^\n]*)\n" % name, out)
+        if not m:
+            raise TranslateError("macro %s not found" % name)
+        par, body = m.group(1), m.group(2)
+        out = out[:m.start()] + "\n" + out[m.end():]
+        out = re.sub(r"#\s*undef\s+%s\b[^\n]*" % name, "", out)
+
+        def inst(mm, body=body, par=par):
+            arg = mm.group(1).strip()
+            b = re.sub(r"\b%s\s*##\s*" % par, arg, body)
+            return re.sub(r"\b%s\b" % par, arg, b)
+        out, cnt = re.subn(r"\b%s\s*\(([^()]*)\)" % name, inst, out)
+        if cnt == 0:
+            raise TranslateError("macro %s is never instantiated" % name)
+    return out
+
+
+def _binop_list(src):
+    """member binary operators written as { auto temp = *this; temp OP= x; return temp; }"""
+    ops = []
+    pat = re.compile(r"bigunsignedint\s*<\s*k\s*>\s*::\s*operator\s*([-+*/%&|^])\s*\(\s*" + _BIG + r"\s*(\w+)\s*\)\s*const\s*\{([^{}]*)\}")
+    for m in pat.finditer(src):
+        op, par, body = m.group(1), m.group(2), re.sub(r"\s+", " ", m.group(3)).strip()
+        mm = re.fullmatch(r"(?:auto|bigunsignedint\s*<\s*k\s*>)\s+(\w+)\s*(?:=\s*\*this|\(\s*\*this\s*\)|\{\s*\*this\s*\})\s*;\s*(\w+)\s*([-+*/%&|^])=\s*(\w+)\s*;\s*return\s+(\w+)\s*;", body)
+        if not mm or not (mm.group(1) == mm.group(2) == mm.group(5)) or mm.group(4) != par:
+            raise TranslateError("binary operator%s is not `copy; copy %s= x; return copy`: %r" % (op, op, body))
+        if mm.group(3) != op:
+            raise TranslateError("binary operator%s applies the compound operator %s=" % (op, mm.group(3)))
+        ops.append(_OPNAME[op])
+    return ops
+
+
+def _mixed_table(src):
+    """(signed?, bigLeft?, OP) -> (OP', bigLeft') : `big OP' conv(builtin)` (bigLeft') or `conv(builtin) OP' big`"""
+    sig = re.compile(
+        r"template\s*<\s*int\s+k\s*(,\s*typename\s+(\w+)\s*,[^{};]*?)?>\s*(?:inline\s+)?(?:Dune::)?bigunsignedint\s*<\s*k\s*>\s+operator\s*"
+        r"([-+*/%])\s*\(\s*(" + _BIG + r"|std::uintmax_t|\w+)\s+(\w+)\s*,\s*(" + _BIG + r"|std::uintmax_t|\w+)\s+(\w+)\s*\)\s*\{([^{}]*)\}")
+    raw = {}
+    for m in sig.finditer(src):
+        tparam, op, t1, p1, t2, p2, body = m.group(2), m.group(3), m.group(4), m.group(5), m.group(6), m.group(7), m.group(8)
+        def kind(t):
+            if re.fullmatch(_BIG, t.strip()):
+                return "big"
+            if t.strip() == "std::uintmax_t":
+                return "u"
+            if tparam and t.strip() == tparam:
+                return "s"
+            raise TranslateError("mixed operator%s: parameter type %r outside the grammar" % (op, t))
+        k1, k2 = kind(t1), kind(t2)
+        if (k1 == "big") == (k2 == "big"):
+            raise TranslateError("mixed operator%s: exactly one operand must be a bigunsignedint" % op)
+        signed = "s" in (k1, k2)
+        if signed and not re.search(r"is_signed\s*<\s*%s\s*>" % tparam, m.group(1) or ""):
+            raise TranslateError("mixed operator%s: template overload not constrained to signed types" % op)
+        big_left = k1 == "big"
+        bigp, builtinp = (p1, p2) if big_left else (p2, p1)
+        # body: optional conversions into temporaries, then `return L OP' R;`
+        stmts = [x.strip() for x in body.split(";") if x.strip()]
+        env = {bigp: "big", builtinp: "raw"}
+        for st in stmts[:-1]:
+            mm = re.fullmatch(r"(?:const\s+)?(?:auto|bigunsignedint\s*<\s*k\s*>)\s+(\w+)\s*(?:\(\s*(\w+)\s*\)|\{\s*(\w+)\s*\}|=\s*(\w+)|=\s*bigunsignedint\s*<\s*k\s*>\s*[({]\s*(\w+)\s*[)}])", st)
+            if not mm:
+                raise TranslateError("mixed operator%s: statement outside the grammar: %r" % (op, st))
+            srcv = next(g for g in mm.groups()[1:] if g)
+            if srcv not in env:
+                raise TranslateError("mixed operator%s: unknown name %r" % (op, srcv))
+            if st.split()[0] == "auto" or (st.split()[0] == "const" and st.split()[1] == "auto"):
+                if env[srcv] == "raw" and not re.search(r"bigunsignedint", st):
+                    env[mm.group(1)] = "raw"; continue
+            env[mm.group(1)] = "big" if env[srcv] == "big" else ("conv" if env[srcv] in ("raw", "conv") else None)
+        mm = re.fullmatch(r"return\s+(.+?)\s*([-+*/%])\s*(.+)", stmts[-1] if stmts else "")
+        if not mm:
+            raise TranslateError("mixed operator%s: no `return L OP R`: %r" % (op, body.strip()))
+        def operand(e):
+            e = e.strip()
+            while e.startswith("(") and e.endswith(")"):
+                e = e[1:-1].strip()
+            m2 = re.fullmatch(r"(?:Dune::)?bigunsignedint\s*<\s*k\s*>\s*[({]\s*(\w+)\s*[)}]", e)
+            if m2:
+                if m2.group(1) not in env:
+                    raise TranslateError("mixed operator%s: unknown name %r" % (op, m2.group(1)))
+                return "big" if env[m2.group(1)] == "big" else "conv"
+            if e in env:
+                return env[e]
+            raise TranslateError("mixed operator%s: operand outside the grammar: %r" % (op, e))
+        l, o2, r = operand(mm.group(1)), mm.group(2), operand(mm.group(3))
+        key = (signed, big_left, _OPNAME[op])
+        if key in raw:
+            raise TranslateError("mixed operator%s declared twice" % op)
+        raw[key] = (l, _OPNAME[o2], r)
+    table = {}
+    def resolve(key, depth):
+        l, o2, r = raw[key]
+        if {l, r} == {"big", "conv"}:
+            return (o2, l == "big")
+        if {l, r} == {"big", "raw"} and depth == 0:
+            fwd = (key[0], l == "big", o2)     # forwards to another mixed overload of the same signedness
+            if fwd not in raw or fwd == key:
+                raise TranslateError("mixed operator forwards to a missing overload: %r" % (fwd,))
+            return resolve(fwd, 1)
+        raise TranslateError("mixed operator %r: operands %s %s outside the grammar" % (key, l, r))
+    for key in raw:
+        table[key] = resolve(key, 0)
+    return table
+
+
+def _derived_cmp(src):
+    """operator> / operator>= / operator== written through another comparison"""
+    names = {">": "gtDef", ">=": "geDef", "==": "eqDef"}
+    cn = {"<": "lt", "<=": "le", ">": "gt", ">=": "ge", "==": "eq", "!=": "ne"}
+    out = {}
+    for op, lean in names.items():
+        m = re.search(r"bigunsignedint\s*<\s*k\s*>\s*::\s*operator\s*%s\s*\(\s*%s\s*(\w+)\s*\)\s*const\s*\{([^{}]*)\}" % (re.escape(op), _BIG), src)
+        if not m:
+            raise TranslateError("operator%s not found" % op)
+        par, body = m.group(1), re.sub(r"\s+", "", m.group(2))
+        this = r"(?:\(\*this\)|\*this)"
+        mm = re.fullmatch(r"return!\(%s(<=|>=|<|>|==|!=)%s\);" % (this, par), body)
+        if mm:
+            out[lean] = "CmpDef.notThisX .%s" % cn[mm.group(1)]; continue
+        mm = re.fullmatch(r"return\(?%s(<=|>=|<|>|==|!=)%s\)?;" % (par, this), body)
+        if mm:
+            out[lean] = "CmpDef.xThis .%s" % cn[mm.group(1)]; continue
+        mm = re.fullmatch(r"return!\(%s(<=|>=|<|>|==|!=)%s\);" % (par, this), body)
+        if mm:
+            out[lean] = "CmpDef.notXThis .%s" % cn[mm.group(1)]; continue
+        raise TranslateError("operator%s is not derived from another comparison in a form the translator knows: %r" % (op, body))
+    for lean, e in out.items():
+        if e.split(".")[-1] not in ("lt", "le", "ne"):
+            raise TranslateError("%s refers to a comparison that has no digit loop of its own: %s" % (lean, e))
+    return out
+
+
+_PRELUDE = """/-- the binary operators of the class (fixed vocabulary of the translator) -/
+inductive BinOp where
+  | add | sub | mul | div | mod | band | bor | bxor
+  deriving Repr, BEq, DecidableEq
+/-- the primitive comparisons (those with a digit loop of their own) -/
+inductive Cmp where
+  | lt | le | gt | ge | eq | ne
+  deriving Repr, BEq, DecidableEq
+/-- how a derived comparison `a OP x` is written: `!(a c x)`, `x c a`, `!(x c a)` -/
+inductive CmpDef where
+  | notThisX (c : Cmp) | xThis (c : Cmp) | notXThis (c : Cmp)
+  deriving Repr, BEq, DecidableEq
+/-- body of a mixed operator after conversion of the built-in operand: `big op conv` (bigLeft) or `conv op big` -/
+structure MixedBody where
+  op : BinOp
+  bigLeft : Bool
+  deriving Repr, BEq, DecidableEq"""
+
+
 def translate(repo):
     src = _strip_comments(open(os.path.join(repo, "dune/common/bigunsignedint.hh")).read())
     out = ["-- GENERATED by tools/translators/tr_c10.py from dune/common/bigunsignedint.hh -- do not edit",
@@ -137,5 +308,38 @@ def translate(repo):
     if not m:
         raise TranslateError("numeric_limits::radix not found")
     out.append("def limitsRadix : Nat := %d" % _const_eval(m.group(1), env))
+    # the remaining members: an integer type has no exponents, infinities, NaNs, denormals, and does not trap
+    for member, lean in (("is_specialized", "limitsIsSpecialized"), ("has_infinity", "limitsHasInfinity"),
+                         ("has_quiet_NaN", "limitsHasQuietNaN"), ("has_signaling_NaN", "limitsHasSignalingNaN"),
+                         ("has_denorm_loss", "limitsHasDenormLoss"), ("is_iec559", "limitsIsIec559"),
+                         ("traps", "limitsTraps"), ("tinyness_before", "limitsTinynessBefore")):
+        m = re.search(r"static\s+(?:const|constexpr)\s+bool\s+%s\s*=\s*(true|false)\s*;" % member, lim)
+        if not m:
+            raise TranslateError("numeric_limits::%s not found" % member)
+        out.append("def %s : Bool := %s" % (lean, m.group(1)))
+    exps = []
+    for member in ("min_exponent", "min_exponent10", "max_exponent", "max_exponent10"):
+        m = re.search(r"static\s+(?:const|constexpr)\s+int\s+%s\s*=\s*([^;]+);" % member, lim)
+        if not m:
+            raise TranslateError("numeric_limits::%s not found" % member)
+        exps.append(str(_const_eval(m.group(1), env)))
+    out.append("def limitsExponents : List Nat := [%s]" % ", ".join(exps))
+
+    # ---- round four: straight-line code ----
+    ex = _expand_macros(src)
+    out.append(_PRELUDE)
+    order = ["add", "sub", "mul", "div", "mod", "band", "bxor", "bor"]
+    ops = _binop_list(ex)
+    out.append("/-- `a OP b` is `temp = a; temp OP= b; return temp` for these operators (DUNE_BINOP and its instantiations) -/")
+    out.append("def binopViaCompound : List BinOp := [%s]" % ", ".join("." + o for o in sorted(set(ops), key=order.index)))
+    tab = _mixed_table(ex)
+    out.append("/-- the free mixed operators: (built-in operand is a signed type, the bigunsignedint is the left operand, OP) -/")
+    out.append("def mixedBody : Bool → Bool → BinOp → Option MixedBody")
+    for key in sorted(tab, key=lambda q: (q[0], not q[1], order.index(q[2]))):
+        o2, bl = tab[key]
+        out.append("  | %s, %s, .%s => some ⟨.%s, %s⟩" % (str(key[0]).lower(), str(key[1]).lower(), key[2], o2, str(bl).lower()))
+    out.append("  | _, _, _ => none")
+    for lean, e in _derived_cmp(ex).items():
+        out.append("def %s : CmpDef := %s" % (lean, e))
     out.append("end DV.C10.Gen")
     return [("DuneVerif/Gen/C10.lean", "\n".join(out) + "\n")]
